@@ -174,11 +174,13 @@ impl<M: MovingAverageConstructor> AverageDirectionalIndexInstance<M> {
 	fn adx(&mut self, plus: ValueType, minus: ValueType) -> ValueType {
 		let s = plus + minus;
 
-		if s == 0. {
+		// both are averages of non-negative movements, but windowed averages keep rounding residue of either sign once
+		// the prices stop moving: `s` may then be tiny and negative and `|plus - minus| / s` anything at all
+		if s <= 0. {
 			return self.ma2.next(&0.);
 		}
 
-		let t = (plus - minus).abs() / s;
+		let t = ((plus - minus).abs() / s).min(1.0);
 		self.ma2.next(&t)
 	}
 }
